@@ -33,6 +33,15 @@ def run(chk):
     # a slot freed while somebody still references it can be taken by a service added later: two reloads, then a reply from the newcomer
     base.append(Scn(True, False, [('old.svc', 'login')], [], 0, L("7 C 1.2.3.4 1 10.0.0.1 6667", "7 P :+x a b") + [('R', [], [], 0), ('R', [('new.svc', 'dronecheck')], [], 0)] + L("7 n Nick", "7 H", "-1 X new.svc 7_1 :OK", "7 D"), "service dropped while awaited, another added later"))
     base.append(Scn(True, False, [('b.svc', 'login'), ('old.svc', 'login')], [], 0, L("7 C 1.2.3.4 1 10.0.0.1 6667", "7 P :+x a b", "-1 X b.svc 7_1 :OK") + [('R', [('b.svc', 'login')], [], 0), ('R', [('b.svc', 'login'), ('new.svc', 'login')], [], 0)] + L("7 n Nick", "7 P :+x c d", "7 H", "7 D"), "service dropped while awaited, another added later (2)"))
+    # a challenger dropped by a reload between its MORE and the client's answer, kept in its slot by another client that still awaits
+    # it: the answer is not forwarded, so the challenger owes the client nothing and its later "reply" must be inert
+    for txt in ("OK bob", "NO go away", "MORE again?"):
+        for newtab in ([('beta.svc', 'dronecheck')], [('alpha.svc', 'bogus'), ('beta.svc', 'dronecheck')]):
+            base.append(Scn(True, False, [('alpha.svc', 'login'), ('beta.svc', 'dronecheck')], [], 0,
+                            L("1 C 10.0.0.1 1001 10.0.0.9 6667", "1 P :+x al pw", "2 C 10.0.0.2 1002 10.0.0.9 6667", "2 P :+x bob pw", "-1 X alpha.svc 2_2 :MORE what is the word?")
+                            + [('R', newtab, [], 0)]
+                            + L("2 P :mellon", "-1 X alpha.svc 2_2 :" + txt, "2 N host.example.org", "2 u ident", "2 n bobby", "2 U bob :Bob B", "-1 X beta.svc 2_2 :OK", "2 H", "2 D", "1 D"),
+                            "challenger dropped between its MORE and the answer, then replies"))
     base = [s for s in base if s.with_xq]
     variants = []   # (scenario with one stray line inserted, index of base, position)
     for bi, scn in enumerate(base):
@@ -124,4 +133,4 @@ def run(chk):
         distinct.add(hash((bi, line)))
     chk.cov["distinct_nontrivial"] = len(distinct)
     chk.cov["samples"] = [variants[0][0].describe().split("\n")[:20], variants[len(variants) // 2][3]] if variants else []
-    chk.cov["rule"] = "differential on the real daemon: history h vs h with one stray reply inserted (stale serial after id reuse aimed at a service the newcomer awaits, other id, malformed tags incl. '_1' '5_' over-long hex, unknown service, known but not-awaited service, unlinked notices) at random positions; the stray line must produce no output and every later step must be identical; distinct = distinct (history, stray line) pairs"
+    chk.cov["rule"] = "differential on the real daemon: history h vs h with one stray reply inserted (stale serial after id reuse aimed at a service the newcomer awaits, other id, malformed tags incl. '_1' '5_' over-long hex, unknown service, known but not-awaited service, unlinked notices) at random positions; fixed histories in which a service dropped by a reload (or a challenger dropped between its MORE and the client's answer) replies later; the stray line must produce no output and every later step must be identical; distinct = distinct (history, stray line) pairs"
